@@ -30,7 +30,8 @@
   `listtypes`), s_text_note, s/e_text_note_body, e_text_note_citation, s/e_text_p, s_text_s, s/e_text_span,
   s_text_tab, s/e_text_x_source.  The style collecting handlers (s_style_*, s_office_styles, …) only feed the opaque
   style sheet: no token, no flag change (s_style_master_page: processelem := False).
-  NOT modelled (`Err.unmodelled` when reached): s/e_custom_shape, s_draw_fill_image, s_draw_object, s_draw_object_ole.
+  s/e_custom_shape (draw:custom-shape: the <div> of a frame without writing the pending data first).
+  NOT modelled (`Err.unmodelled` when reached): s_draw_fill_image, s_draw_object, s_draw_object_ole.
   Python exceptions are `Err` values (KeyError for `attrs[k]`, ValueError for `int()`, IndexError for `pop` on an empty
   `htmlstack` / `stackparent()`, AttributeError for `None.replace` and a missing `_orgwfunc`).
   `int(x)` is modelled on non-empty ASCII digit strings only (anything else: ValueError).
@@ -134,6 +135,7 @@ def sG : Str := [71, 45]  -- G-
 def sPR : Str := [80, 82, 45]  -- PR-
 def sPosRel : Str := [112, 111, 115, 105, 116, 105, 111, 110, 58, 114, 101, 108, 97, 116, 105, 118, 101, 59]  -- position:relative;
 def sPosAbs : Str := [112, 111, 115, 105, 116, 105, 111, 110, 58, 97, 98, 115, 111, 108, 117, 116, 101, 59]  -- position:absolute;
+def sPosAbsSp : Str := [112, 111, 115, 105, 116, 105, 111, 110, 58, 32, 97, 98, 115, 111, 108, 117, 116, 101, 59]  -- position: absolute;
 def sWidth : Str := [119, 105, 100, 116, 104, 58]  -- width:
 def sHeight : Str := [104, 101, 105, 103, 104, 116, 58]  -- height:
 def sLeft : Str := [108, 101, 102, 116, 58]  -- left:
@@ -363,6 +365,16 @@ def frameStyle (attrs : Attrs) : Str :=
   let s3 := match attrs.lookup kSvgX with | some v => s2 ++ sLeft ++ v ++ [59] | none => s2
   match attrs.lookup kSvgY with | some v => s3 ++ sTop ++ v ++ [59] | none => s3
 
+/-- style string of s_custom_shape: like s_draw_frame, but absolute for paragraph / char anchors and `position: absolute;`
+    (with a blank) for every other anchor type -/
+def shapeStyle (attrs : Attrs) : Str :=
+  let at_ := (attrs.lookup kAnchorType).getD sNotfound
+  let s0 : Str := if at_ = sParagraph then sPosAbs else if at_ = sChar then sPosAbs else if at_ = sAsChar then [] else sPosAbsSp
+  let s1 := match attrs.lookup kSvgW with | some v => s0 ++ sWidth ++ v ++ [59] | none => s0
+  let s2 := match attrs.lookup kSvgH with | some v => s1 ++ sHeight ++ v ++ [59] | none => s1
+  let s3 := match attrs.lookup kSvgX with | some v => s2 ++ sLeft ++ v ++ [59] | none => s2
+  match attrs.lookup kSvgY with | some v => s3 ++ sTop ++ v ++ [59] | none => s3
+
 def frameClass (attrs : Attrs) : Str :=
   let n := sG ++ (attrs.lookup kDrawStyle).getD []
   let n := if n = sG then sPR ++ (attrs.lookup kPresStyle).getD [] else n
@@ -446,6 +458,11 @@ def runH (cfg : Cfg) (ctx : Ctx) (h : HName) (q : Str) (attrs : Attrs) (pe pc : 
     let st := purgedata (writedata st)
     keep (if cfg.css then opentag nDiv [(aClass, frameClass attrs), (aStyle, frameStyle attrs)] false st else opentag nDiv [] false st)
   | .e_draw_frame => keepM (closetag nDiv true st)
+  -- draw:custom-shape: a <div> like the frame's, but the pending character data is NOT written first (no writedata /
+  -- purgedata: a paragraph inside the shape purges it)
+  | .s_custom_shape =>
+    keep (if cfg.css then opentag nDiv [(aClass, frameClass attrs), (aStyle, shapeStyle attrs)] false st else opentag nDiv [] false st)
+  | .e_custom_shape => keepM (closetag nDiv true st)
   | .s_draw_image =>
     match ctx.stack with
     | [] => .error .indexError
@@ -615,7 +632,7 @@ def runH (cfg : Cfg) (ctx : Ctx) (h : HName) (q : Str) (attrs : Attrs) (pe pc : 
   | .s_text_x_source => .ok (purgedata (writedata st), false, pc)
   | .e_text_x_source => keep (purgedata (writedata st))
   -- not modelled
-  | .s_custom_shape | .e_custom_shape | .s_draw_fill_image | .s_draw_object | .s_draw_object_ole => .error .unmodelled
+  | .s_draw_fill_image | .s_draw_object | .s_draw_object_ole => .error .unmodelled
   | .html_body | .generate_footnotes | .writedata => .error .unmodelled   -- helpers, never in the dispatch table
 
 /-- `self.elements.get(tag, (None, None))` -/
